@@ -79,14 +79,28 @@ def _worker(rank, world, port, cfg, q):
         q.put((rank, None, ''.join(traceback.format_exception_only(type(e), e)).strip()))
 
 
-def run_gloo(cfg, timeout=120):
+def run_gloo(cfg, timeout=120, hashseeds=None):
+    """hashseeds: start every rank as a separate interpreter (multiprocessing 'spawn', as torchrun/mpirun do) with its own
+    string-hash seed instead of forking this process"""
     os.makedirs(TMP, exist_ok=True)
-    ctx = multiprocessing.get_context('fork')
+    ctx = multiprocessing.get_context('spawn' if hashseeds else 'fork')
     q = ctx.Queue()
     port = _free_port()
     procs = [ctx.Process(target=_worker, args=(r, cfg.world, port, cfg, q)) for r in range(cfg.world)]
-    for p in procs:
+    old_hs = os.environ.get('PYTHONHASHSEED')
+    old_pp = os.environ.get('PYTHONPATH')
+    for r, p in enumerate(procs):
+        if hashseeds:
+            os.environ['PYTHONHASHSEED'] = str(hashseeds[r])
+            import sys
+            os.environ['PYTHONPATH'] = os.pathsep.join(x for x in sys.path if x)
         p.start()
+    if hashseeds:
+        for k_, v_ in (('PYTHONHASHSEED', old_hs), ('PYTHONPATH', old_pp)):
+            if v_ is None:
+                os.environ.pop(k_, None)
+            else:
+                os.environ[k_] = v_
     res = [None] * cfg.world
     err = None
     try:
@@ -113,11 +127,11 @@ def issues(trace):
     return [e for e in trace if e[0] in ('issue', 'new_group')]
 
 
-def crosscheck(ctx, cfg, sched_seed=0):
+def crosscheck(ctx, cfg, sched_seed=0, hashseeds=None):
     """returns list of differences between the real-gloo run and the simdist run of cfg"""
     rr = kfacsim.run_real(cfg, sched_seed=sched_seed)
-    gres, gerr = run_gloo(cfg)
-    if gerr and 'timeout' in gerr and not kfacsim.run_failed(rr):
+    gres, gerr = run_gloo(cfg, timeout=(400 if hashseeds else 120), hashseeds=hashseeds)
+    if gerr and 'timeout' in gerr and not kfacsim.run_failed(rr) and not hashseeds:
         # a wall-clock timeout on a loaded machine is not a hang: run the processes again with a long limit; only a
         # run that still does not finish is reported (a real deadlock the simulator does not exhibit)
         ctx.count('gloo-retry-after-timeout')
